@@ -129,8 +129,9 @@ structure WInv (bs : Nat) (total : Bytes) (w : Writer) : Prop where
   bsz : w.blockSize = bs
   cat : w.out ++ w.cache = total
   len : w.cache.length = min total.length bs
+  cnt : w.written = total.length
 
-theorem winv_init (bs : Nat) : WInv bs [] (newWriter bs) := ⟨rfl, rfl, by simp [newWriter]⟩
+theorem winv_init (bs : Nat) : WInv bs [] (newWriter bs) := ⟨rfl, rfl, by simp [newWriter], rfl⟩
 
 theorem winv_write (bs : Nat) (total : Bytes) (w : Writer) (buff : Bytes) (h : WInv bs total w) :
     WInv bs (total ++ buff) (w.write buff) := by
@@ -138,7 +139,7 @@ theorem winv_write (bs : Nat) (total : Bytes) (w : Writer) (buff : Bytes) (h : W
   have hb := h.bsz
   by_cases hc : (w.cache ++ buff).length > w.blockSize
   · simp only [hc, if_true]
-    refine ⟨hb, ?_, ?_⟩
+    refine ⟨hb, ?_, ?_, by simp [h.cnt]⟩
     · simp only [List.append_assoc, List.take_append_drop]
       rw [← List.append_assoc, h.cat]
     · have := h.len
@@ -146,7 +147,7 @@ theorem winv_write (bs : Nat) (total : Bytes) (w : Writer) (buff : Bytes) (h : W
       rw [hb] at hc ⊢
       omega
   · simp only [hc, if_false]
-    refine ⟨hb, ?_, ?_⟩
+    refine ⟨hb, ?_, ?_, by simp [h.cnt]⟩
     · rw [← List.append_assoc, h.cat]
     · have := h.len
       simp only [List.length_append] at hc ⊢
